@@ -422,7 +422,10 @@ func (c *Ctx) checkMutationProtocol() {
 	acsGiven := c.field("server", "MsgAccessMode", "Given")
 	nCons := 0
 	for _, fn := range c.funcsCalling(applyMut, "server") {
-		if !isPtrToNamedRecv(fn, "Topic") {
+		// the consumer is a Topic method, or a helper (for instance a method of the record) that a
+		// Topic method is the only caller of
+		root := c.climbUntil(fn, func(f *ssa.Function) bool { return isPtrToNamedRecv(f, "Topic") })
+		if !isPtrToNamedRecv(root, "Topic") {
 			continue
 		}
 		nCons++
@@ -477,10 +480,17 @@ func (c *Ctx) checkMutationProtocol() {
 		}
 		if last != nil {
 			cut := core.FailEdges(fn, successGuard(last.(ssa.CallInstruction)))
-			miss, _ = core.PathAvoiding(fn, last, core.IsReturn, func(x ssa.Instruction) bool {
-				mu, ok := x.(*ssa.MapUpdate)
-				return ok && core.IsFieldLoad(perUser)(mu.Map)
-			}, cut)
+			if root != fn {
+				for e := range core.FailEdges(root, successGuard(last.(ssa.CallInstruction))) {
+					cut[e] = true
+				}
+			}
+			c.withRegionUp(root, func() {
+				miss, _ = core.PathAvoidingX(fn, last, core.IsReturn, func(x ssa.Instruction) bool {
+					mu, ok := x.(*ssa.MapUpdate)
+					return ok && core.IsFieldLoad(perUser)(mu.Map)
+				}, cut)
+			})
 		}
 		r.Check(!miss, "C05.4c-consumer-applies-both", fk(fn)+": updated record written back to Topic.perUser", c.P.Pos(fn.Pos()), "", "the tracked permissions are computed but not stored")
 	}
